@@ -273,16 +273,24 @@ func runC13(r *an.Run) {
 			for ct := range want {
 				o.FailAt(f.ID+"#close-type-"+ct, f.Where(restartSw.Pos()), "close type %s has no trigger after restart", ct)
 			}
+			nTH := 0
 			for _, s := range f.Assigns(an.LocalNamed("triggerHeight"), false) {
 				as := s.Node.(*ast.AssignStmt)
 				if as.Tok.String() == ":=" {
 					continue
 				}
+				nTH++
+				guarded(o, f, s, an.Truth(an.FieldPath(an.FieldPath(an.Recv(), "cfg"), "IsPendingClose"), true, "c.cfg.IsPendingClose"))
 				o.Site("%s", s.String())
 				if c := f.Canon(as.Rhs[0]); c != "$recv.cfg.ClosingHeight" {
 					o.FailAt(f.ID+"#trigger-height", s.Where(), "the trigger height of a closed channel is %s, expected the recorded closing height", c)
 				}
 			}
+			if nTH != 1 {
+				o.FailAt(f.ID+"#trigger-height-missing", f.Where(f.Body.Pos()), "a closed channel must be re-triggered at its recorded closing height: found %d assignments of triggerHeight below IsPendingClose, expected one", nTH)
+			}
+			// every pending-close path sets it: the advanceState call is
+			// unreachable below IsPendingClose without that assignment
 			// the relaunched resolvers are re-supplemented from the set of
 			// the commitment that confirmed
 			rr := p.Func(arb + "relaunchResolvers")
@@ -640,6 +648,33 @@ func runC13(r *an.Run) {
 						}
 					}
 					o.Site("%s checkpoint-follows=%v checkpoint-precedes=%v", s.String(), ok, after)
+					if ok {
+						// a failed checkpoint must abort the step: no successful
+						// exit after this site without the checkpoint's success
+						reachS := f.Graph().Reach(s.V, nil, nil)
+						var succ []an.Site
+						for _, rsite := range f.Returns() {
+							if reachS[rsite.V] && f.ClassifyReturn(rsite) != an.RetFailure {
+								succ = append(succ, rsite)
+							}
+						}
+						var following []an.Site
+						for _, c := range cps {
+							if reachS[c.V] {
+								following = append(following, c)
+							}
+						}
+						es, direct := f.UnionOk(following, an.OkErrNil)
+						r2 := f.Graph().Reach(s.V, es, nil)
+						for _, rsite := range succ {
+							if direct[rsite.V] {
+								continue
+							}
+							if r2[rsite.V] {
+								o.FailAt(f.ID+"#checkpoint-failure-ignored", rsite.Where(), "after %s the step can return success although the Checkpoint failed", an.Text(s.Node))
+							}
+						}
+					}
 					if ok || after {
 						continue
 					}
